@@ -371,9 +371,103 @@ Proof.
       rewrite N.land_spec, Hb, !N.lor_spec. cbn [andb].
       destruct (slider_reason WKNIGHT IN Epc Hpro) as [He|[HD|Hd]]; [rewrite He; reflexivity | | congruence].
       destruct (direct_cases WKNIGHT (I6 _ IN) Epc HD) as [[_ A']|[[E _]|[[[E|E] _]|[[E|E] _]]]]; try discriminate E. rewrite A'. apply orb_true_r.
-  - (* single pushes *) idtac "TODO".
-  - idtac "TODO".
-  - idtac "TODO".
-  - idtac "TODO".
+  - (* single pushes *) do 6 (apply in_or_app; right).
+    unfold lP1 in Hm. fold w occ pawns in Hm. fold m1 in Hm. apply pawnTo_iff in Hm; [|exact H1]. destruct Hm as (Hb & Ef & Hpo).
+    unfold m1, andn in Hb. rewrite N.ldiff_spec in Hb. apply andb_true_iff in Hb. destruct Hb as [Hfw Hno]. apply negb_true_iff in Hno.
+    apply (fwd_testbit w pawns 8 _ Hp) in Hfw. destruct Hfw as (_ & Hpb & Hz). rewrite <- Ef in Hpb, Hz.
+    destruct (N.testbit pawnAll (mfrom m)) eqn:Epa.
+    + do 2 (apply in_or_app; right). apply in_or_app. left.
+      apply pawnToF_iff; [apply ldiff_lt, fwd_lt, land_lt_l; exact Hp|].
+      split; [|split; [exact Ef | apply (promoF _ _ Hpo Hunder eq_refl)]].
+      unfold ma, andn. rewrite N.ldiff_spec, Hno, andb_true_r. apply (fwd_testbit w _ 8 _ (land_lt_l _ _ _ Hp)).
+      split; [exact Ht|]. rewrite <- Ef. split; [rewrite N.land_spec, Hpb, Epa; reflexivity | exact Hz].
+    + assert (Epro : mpromote m = EMPTY).
+      { destruct Hpo as [[Hr _]|[_ E]]; [|exact E]. exfalso. destruct (R7 (mfrom m) (mto m) w Hf Ht) as [A _]. specialize (A Hz Hr).
+        unfold pawnAll in Epa. rewrite N.lor_spec, A, orb_true_r in Epa. discriminate Epa. }
+      destruct (proj1 (pawns_bit p HWF w (mfrom m)) Hpb) as [_ Epc].
+      assert (Ezf : zf (mto m) = zf (mfrom m)).
+      { symmetry. apply (zf_shift _ _ (if w then -1 else 1)%Z). rewrite Hz. unfold delta. change (Z.of_N 8) with 8%Z. destruct w; lia. }
+      do 4 (apply in_or_app; right). apply in_or_app. left.
+      apply pawnToF_iff; [apply land_lt_l, ldiff_lt, fwd_lt, ldiff_lt; exact Hp|].
+      split; [|split; [exact Ef | right; split; [|exact Epro]]].
+      2:{ destruct Hpo as [[Hr _]|[Hr _]]; [|exact Hr]. exfalso. destruct (R7 (mfrom m) (mto m) w Hf Ht) as [A _]. specialize (A Hz Hr).
+          unfold pawnAll in Epa. rewrite N.lor_spec, A, orb_true_r in Epa. discriminate Epa. }
+      rewrite N.land_spec. apply andb_true_iff. split.
+      * unfold mb, andn. rewrite !N.ldiff_spec, Hno, andb_true_r. apply (fwd_testbit w _ 8 _ (ldiff_lt _ _ _ Hp)).
+        split; [exact Ht|]. rewrite <- Ef. split; [rewrite N.ldiff_spec, Hpb, Epa; reflexivity | exact Hz].
+      * destruct (reason p HWF m Hleg Hcls Epro) as [He|[HD|Hd]]; try (unfold isEp, isCK, isCQ; fold w; rewrite Epc, is_piece_eqb).
+        -- rewrite Ezf, Z.eqb_refl. cbn [negb]. rewrite andb_false_r. reflexivity.
+        -- unfold w. destruct (whiteMove p); reflexivity.
+        -- unfold w. destruct (whiteMove p); reflexivity.
+        -- exfalso. fold w in He. unfold occ, occupiedBB in Hno. rewrite N.lor_spec in Hno. apply orb_false_iff in Hno. destruct Hno as [N1 N2].
+           unfold colorBB in He. destruct (negb w); congruence.
+        -- assert (I1 : In WPAWN [1; 2; 3; 4; 5; 6]) by (cbn; tauto).
+           assert (Epc' : getPiece p (mfrom m) = myPiece w WPAWN) by (rewrite Epc; unfold w; destruct (whiteMove p); reflexivity).
+           destruct (direct_cases WPAWN I1 Epc' HD) as [[E _]|[[_ A]|[[[E|E] _]|[[E|E] _]]]]; try discriminate E. exact A.
+        -- exfalso. fold w in Hd. fold disc in Hd. unfold pawnAll in Epa. rewrite N.lor_spec, Hd in Epa. discriminate Epa.
+  - (* double pushes *) do 6 (apply in_or_app; right).
+    unfold lP2 in Hm. fold w occ pawns in Hm. fold m1 in Hm. apply plainTo_iff in Hm; [|exact H2]. destruct Hm as (Hb & Ef & Epro).
+    unfold andn in Hb. rewrite N.ldiff_spec in Hb. apply andb_true_iff in Hb. destruct Hb as [Hfw Hno]. apply negb_true_iff in Hno.
+    apply (fwd_testbit w _ 8 _ (land_lt_l _ _ _ H1)) in Hfw. destruct Hfw as (_ & Hmid & Hzm).
+    set (mid := sqAdd (mto m) (delta w 8)) in *.
+    rewrite N.land_spec in Hmid. apply andb_true_iff in Hmid. destruct Hmid as [Hmid Hrow]. fold row in Hrow.
+    unfold m1, andn in Hmid. rewrite N.ldiff_spec in Hmid. apply andb_true_iff in Hmid. destruct Hmid as [Hmf Hmo]. apply negb_true_iff in Hmo.
+    apply (fwd_testbit w pawns 8 _ Hp) in Hmf. destruct Hmf as (Hm64 & Hpb & Hz2).
+    assert (E : sqAdd mid (delta w 8) = mfrom m).
+    { rewrite Ef. unfold mid, sqAdd in *. rewrite delta_16. f_equal. lia. }
+    rewrite E in Hpb, Hz2.
+    destruct (proj1 (pawns_bit p HWF w (mfrom m)) Hpb) as [_ Epc].
+    assert (Ezf : zf (mto m) = zf (mfrom m)).
+    { symmetry. apply (zf_shift _ _ (if w then -2 else 2)%Z). rewrite Hz2, Hzm. unfold delta. change (Z.of_N 8) with 8%Z. destruct w; lia. }
+    assert (Hmask : forall x, x < 2 ^ 64 -> N.testbit x (mfrom m) = true ->
+              N.testbit (andn (fwd w (N.land (andn (fwd w x 8) occ) row) 8) occ) (mto m) = true).
+    { intros x Hx Hxf. unfold andn at 1. rewrite N.ldiff_spec, Hno, andb_true_r.
+      apply (fwd_testbit w _ 8 _ (land_lt_l _ _ _ (ldiff_lt _ _ _ (fwd_lt w x 8 Hx)))). split; [exact Ht|]. fold mid. split; [|exact Hzm].
+      rewrite N.land_spec, Hrow, andb_true_r. unfold andn. rewrite N.ldiff_spec, Hmo, andb_true_r.
+      apply (fwd_testbit w x 8 _ Hx). split; [exact Hm64|]. rewrite E. auto. }
+    destruct (N.testbit pawnAll (mfrom m)) eqn:Epa.
+    + do 3 (apply in_or_app; right). apply in_or_app. left.
+      apply plainTo_iff; [apply ldiff_lt, fwd_lt, land_lt_l, ldiff_lt, fwd_lt, land_lt_l; exact Hp|].
+      split; [|auto]. apply (Hmask (N.land pawns pawnAll) (land_lt_l _ _ _ Hp)). rewrite N.land_spec, Hpb, Epa. reflexivity.
+    + do 5 (apply in_or_app; right).
+      apply plainTo_iff; [apply land_lt_l, ldiff_lt, fwd_lt, land_lt_l, ldiff_lt, fwd_lt, ldiff_lt; exact Hp|].
+      split; [|auto]. rewrite N.land_spec. apply andb_true_iff. split.
+      * apply (Hmask (andn pawns pawnAll) (ldiff_lt _ _ _ Hp)). unfold andn. rewrite N.ldiff_spec, Hpb, Epa. reflexivity.
+      * destruct (reason p HWF m Hleg Hcls Epro) as [He|[HD|Hd]]; try (unfold isEp, isCK, isCQ; fold w; rewrite Epc, is_piece_eqb).
+        -- rewrite Ezf, Z.eqb_refl. cbn [negb]. rewrite andb_false_r. reflexivity.
+        -- unfold w. destruct (whiteMove p); reflexivity.
+        -- unfold w. destruct (whiteMove p); reflexivity.
+        -- exfalso. fold w in He. unfold occ, occupiedBB in Hno. rewrite N.lor_spec in Hno. apply orb_false_iff in Hno. destruct Hno as [N1 N2].
+           unfold colorBB in He. destruct (negb w); congruence.
+        -- assert (I1 : In WPAWN [1; 2; 3; 4; 5; 6]) by (cbn; tauto).
+           assert (Epc' : getPiece p (mfrom m) = myPiece w WPAWN) by (rewrite Epc; unfold w; destruct (whiteMove p); reflexivity).
+           destruct (direct_cases WPAWN I1 Epc' HD) as [[E0 _]|[[_ A]|[[[E0|E0] _]|[[E0|E0] _]]]]; try discriminate E0. exact A.
+        -- exfalso. fold w in Hd. fold disc in Hd. unfold pawnAll in Epa. rewrite N.lor_spec, Hd in Epa. discriminate Epa.
+  - (* captures towards the a-file *) do 6 (apply in_or_app; right). apply in_or_app. left.
+    unfold lP3 in Hm. fold w occ pawns enemy in Hm. apply pawnTo_iff in Hm; [|exact H3]. destruct Hm as (Hb & Ef & Hpo).
+    apply pawnToF_iff; [exact H3|]. split; [exact Hb|]. split; [exact Ef | apply (promoF _ _ Hpo Hunder eq_refl)].
+  - (* captures towards the h-file *) do 7 (apply in_or_app; right). apply in_or_app. left.
+    unfold lP4 in Hm. fold w occ pawns enemy in Hm. apply pawnTo_iff in Hm; [|exact H4]. destruct Hm as (Hb & Ef & Hpo).
+    apply pawnToF_iff; [exact H4|]. split; [exact Hb|]. split; [exact Ef | apply (promoF _ _ Hpo Hunder eq_refl)].
 Qed.
 End CC3.
+
+(** C01_captures_checks_complete *)
+Theorem captures_checks_complete : forall zk p m, WF p -> legal_spec (abs p) m -> captureCheckClass (abs p) m = true ->
+  In m (snd (removeIllegal zk p (pseudoLegalCapturesAndChecks p))).
+Proof.
+  intros zk p m H Hl Hc. rewrite removeIllegal_twin. set (p' := twin p).
+  assert (W' : WF p') by exact H. pose proof (twin_consistent p H) as C'. fold p' in C'.
+  rewrite <- (cc_twin p). fold p'.
+  destruct (removeIllegal_sublist zkDummy p' (pseudoLegalCapturesAndChecks p') zkDummy_empty W' C' (capchecks_sub p' W')) as [Hiff _].
+  apply Hiff. split; [|exact Hl]. apply (capchecks_generated p' W' m); [exact Hl | exact Hc].
+Qed.
+
+(** non-vacuity: in the position of GivesCheckProofs the quiet rook move Rh1-h8 (a check) is generated and kept,
+    the quiet knight move Ne2-c3 (no check) is not generated *)
+Example capchecks_example :
+  captureCheckClass (abs gcPosition) (mkMove 7 63 EMPTY) = true /\
+  In (mkMove 7 63 EMPTY) (snd (removeIllegal zkDummy gcPosition (pseudoLegalCapturesAndChecks gcPosition))) /\
+  captureCheckClass (abs gcPosition) (mkMove 12 18 EMPTY) = false /\
+  ~ In (mkMove 12 18 EMPTY) (pseudoLegalCapturesAndChecks gcPosition).
+Proof. vm_compute. intuition discriminate. Qed.
